@@ -57,8 +57,28 @@ Theorem C01_repagination_total :
 Proof. exact doc_loop_no_panic. Qed.
 Print Assumptions C01_repagination_total.
 
+(* a document whose pages never set a re-make flag (no page-based counter, no
+   target counter / text) is laid out in exactly one round *)
+Theorem C01_single_round_without_remake_flags :
+  forall (R : Type) (R_eqb : R -> R -> bool)
+         (layout_content : option R -> nat -> (option R * brk * nat) * (bool * bool))
+         (layout_blank : nat -> nat * (bool * bool)) (state_changed : nat -> bool)
+         (mu : option R -> nat) (F : nat),
+    (forall r fn r' b fn' fl, layout_content r fn = ((Some r', b, fn'), fl) -> mu (Some r') < mu r) ->
+    (forall r fn r' b fn' fl, layout_content r fn = ((r', b, fn'), fl) -> fn' <= F) ->
+    (forall fn fn' fl, layout_blank fn = (fn', fl) -> fn' <= fn /\ (0 < fn -> fn' < fn)) ->
+    (forall r fn, snd (layout_content r fn) = (false, false)) ->
+    (forall fn, snd (layout_blank fn) = (false, false)) ->
+    forall max_loops b right, max_loops <> Some 0 ->
+    exists pages,
+      layout_document R R_eqb layout_content layout_blank state_changed
+        (first_round_fuel R mu F) max_loops b right = Ok (1, pages).
+Proof. exact single_round_without_remake_flags. Qed.
+Print Assumptions C01_single_round_without_remake_flags.
+
 (* Full statement for the later rounds (pages re-used when up to date): kept
-   visible; proved for the first round above (C01_page_loop_terminates). *)
+   visible; proved for the first round (C01_page_loop_terminates) and for documents
+   that never set a re-make flag (C01_single_round_without_remake_flags). *)
 Definition C01_later_rounds_terminate_statement : Prop :=
   forall (R : Type) (R_eqb : R -> R -> bool)
          (layout_content : option R -> nat -> (option R * brk * nat) * (bool * bool))
